@@ -508,7 +508,18 @@ def _const_reads(model: Model, folder: Folder, fi: FuncInfo, buf: str) -> list[t
 
     def reads(expr: ast.AST, env: dict, conds: dict) -> list[tuple[int, int, ast.AST]]:
         out = []
+        # a slice bound as it is (`fixed, rest = data[:9], data[9:]`) is a sub-buffer handed on, not a decoded field: only
+        # what goes through a conversion (a call other than bytes / memoryview) or is read as one octet counts
+        bare = set()
+        tops = expr.elts if isinstance(expr, (ast.Tuple, ast.List)) else [expr]
+        for t_ in tops:
+            while isinstance(t_, ast.Call) and isinstance(t_.func, ast.Name) and t_.func.id in ('bytes', 'memoryview', 'bytearray') and len(t_.args) == 1:
+                t_ = t_.args[0]
+            if isinstance(t_, ast.Subscript) and isinstance(t_.slice, ast.Slice):
+                bare.add(id(t_))
         for s_ in ast.walk(expr):
+            if id(s_) in bare:
+                continue
             if isinstance(s_, ast.Subscript) and dotted(s_.value) == buf:
                 if isinstance(s_.slice, ast.Slice):
                     if s_.slice.upper is None or s_.slice.step is not None:
